@@ -609,12 +609,12 @@ def join_u1(chk, cfg, r, tier):
             t["example"] = [x] + c[3]
     fmts_pair = ["T4"] if tier == "quick" else ["T4", "T5"]
     for fn in fmts_pair:
-        for rel in ("sum2", "fast", "prod:nCS", "prod:nCU", "prod:cC"):
+        for rel in ("sum2", "fast", "prod:nCS", "prod:nCU", "prod:nDS", "prod:nDU", "prod:cC"):
             t = tot.get("%s %s" % (fn, rel))
             if not t or t["in_domain"] == 0 or (rel.startswith("prod") and t["exact_domain"] == 0):
                 raise tlc.MachineryError("vacuous model run: no in-domain pair for %s %s" % (fn, rel))
     for fn in ("T4", "T5", "T6", "T7"):
-        for rel in ("split:nCS", "split:nCU", "split:cC", "splitk"):
+        for rel in ("split:nCS", "split:nCU", "split:nDS", "split:nDU", "split:cC", "splitk"):
             t = tot.get("%s %s" % (fn, rel))
             if not t or t["in_domain"] == 0:
                 raise tlc.MachineryError("vacuous model run: no in-domain operand for %s %s" % (fn, rel))
@@ -622,10 +622,10 @@ def join_u1(chk, cfg, r, tier):
         if not any(t["violating"] for k, t in tot.items() if k.endswith(" " + w)):
             raise tlc.MachineryError("model run: the wrong algorithm %s is not rejected by the clauses" % w)
     chk.cov["u1"] = tot
-    bad_default = {k: t["violating"] for k, t in tot.items() if k.split()[1] in ("split:nNS", "split:nNU", "prod:nNS", "prod:nNU") and t["violating"]}
-    if bad_default:
-        chk.note("U1 (design level): the transcription of floating_point_algorithms.split_veltkamp with C=None (multiplier 2^s) "
-                 "violates split_bits / prod_exact on toy formats: %s" % json.dumps(bad_default, sort_keys=True))
+    # negative control: the pre-92b9285 default multiplier 2^s must be rejected by the clauses (even p)
+    for w in ("split:nNS", "prod:nNS"):
+        if not any(t["violating"] for k, t in tot.items() if k.endswith(" " + w)):
+            raise tlc.MachineryError("model run: the splitter with multiplier 2^s (%s) is not rejected by the clauses" % w)
 
 
 # --------------------------------------------------------------------------------------------- inputs
@@ -850,7 +850,6 @@ def run(tier, seed):
         "fix_overflow=True does not enlarge the judged domain: outside 'no intermediate overflow' the pair is only noted",
         "assume_fma=True cannot be observed under NumPy (no fused multiply-add): only 'the call returns a pair' is demanded",
         "three-term sum_2sum: judged only where the transcription's t1 + t2 is exact",
-        "split_veltkamp(C=None): the domain 'C*x does not overflow' is the intersection over both readings of the default constant (2^s in the code, 2^s+1 in the docstring)",
         "a returned Python/NumPy number of another type is accepted when it is exactly a value of the format (the literal 0 of fix_overflow)",
         "domains are computed from the TLA+ transcription of each algorithm variant; a code change that alters which intermediates overflow shows up as drift, not as a violation",
     ]
